@@ -12,10 +12,10 @@ Anchors (where the behaviour lives): {json.dumps(p['anchors']['mechanism'])}
 Files: {', '.join(p['anchors']['files'])}
 
 Requirements for the change:
-- Edit only files under {wt}/mystic/ (not tests). Keep it small (1-10 lines), plausible as something a maintainer could write by mistake or as a "cleanup/optimisation" (off-by-one, wrong variable, dropped copy, swapped order, a falsy-zero `or`, a stale cache, a condition that is right for the common case only...).
+- Edit only files under {wt}/mystic/ (not tests). Keep it small (1-12 lines in total), plausible as something a maintainer could write by mistake or as a "cleanup/optimisation" (off-by-one, wrong variable, dropped copy, swapped order, a falsy-zero `or`, a stale cache, a condition that is right for the common case only...).
 - It must need something SPECIFIC to manifest: an unusual input, a particular multi-step sequence of API calls, a particular configuration combination, a fault/restart at a particular point, or two cooperating sites that each look fine alone. It must NOT be something ordinary default use exposes at once, and must not make mystic raise on import or in common use.
 - {avoid}
-- The existing test suite must still pass with the change. Run it from the worktree: cd {wt} && /venv/bin/python -m pytest -q -p no:cacheprovider --timeout=900 --continue-on-collection-errors mystic/tests 2>&1 | tail -5   (takes ~5 minutes; 213+ tests pass on the unchanged tree; compare against the unchanged tree if anything fails - a failure that also occurs without your change does not count against you).
+- The existing test suite must still pass with the change. Run it from the worktree: cd {wt} && /venv/bin/python -m pytest -q -p no:cacheprovider --timeout=900 --continue-on-collection-errors mystic/tests 2>&1 | tail -5   (takes ~5-20 minutes when the machine is busy; run it in the background, redirecting output to a file inside your worktree, and keep working; NEVER use pkill or killall - other people run the same command on this machine; 213+ tests pass on the unchanged tree; compare against the unchanged tree if anything fails - a failure that also occurs without your change does not count against you).
 - Python to use: /venv/bin/python. NOTE mystic is also installed elsewhere in editable mode; to be sure you import YOUR worktree copy, run scripts located in {wt} (sys.path[0] is then the worktree) and have the demo print mystic.__file__ and assert it starts with the directory of the demo file.
 
 Deliverables, all written into {wt}/deliver/ :
